@@ -135,7 +135,6 @@ def shipped_unit(fname, rec, limit=None, only=None, seed=1):
     memo = {}
     eligible = []
     import sys
-    sys.setrecursionlimit(20000)
     for m in tables:
         try:
             if R.count_nodes(tables, m, frozenset(), memo) < 20000:
